@@ -30,6 +30,18 @@ CHECKS = {
    note=NOTE_COMMON+" The transcendental functions are environment stubs constrained only by the listed axioms; floating-point accuracy over twelve decades and the IEEE behaviour of the four log maps are outside.",
    technique="symbolic execution on z3 Real terms with axiomatised uninterpreted functions (UF+NRA validity) and Float64 path exploration for input validation",
    ref="DESIGN.md §6 C14"),
+ 'C15': dict(
+   text="(A) maps._volume_average_weights is executed with the node coordinates of BOTH grids symbolic; the explorer enumerates every "
+        "interleaving of the two node vectors including coinciding nodes (each a path) and z3 decides per path a complete 1-D "
+        "specification: weights > 0, tiling of the output hull, each piece inside its output cell and inside its input cell or "
+        "nearest-filled. (B) interp_volume_average, interpolate(method='volume', log), _interp_volume_average_adj and "
+        "Model.interpolate_to_grid run on concrete dyadic grid pairs (equal, nested, finer, shifted, overhanging, inside, "
+        "interleaved) with all cell values symbolic: kernel == independent overlap oracle, conservation, range, identity, "
+        "forward == (adjoint)^T per component without cross-talk, log mode = 10**(average of log10) with rho/sigma symmetry "
+        "(log10/10** axiomatised), log mode chosen from the mapping and explicit log= honoured.",
+   note=NOTE_COMMON+" 3-D grids are concrete (10 pairs); the 1-D routine is fully symbolic up to 4x3 cells (thorough 4x4). discretize's volume_average is probed with unit vectors to obtain the adjoint matrix.",
+   technique="symbolic execution with forking comparisons over symbolic node coordinates (every interleaving = one path) + LIN/UF validity queries; concrete-grid symbolic-value identities",
+   ref="DESIGN.md §6 C15"),
  'C05': dict(
    text="Bounded symbolic execution with the grid shape as z3 integers: MGParameters._max_level, _current_sc_dir, _current_lr_dir, "
         "smoothing dispatch, multigrid recursion and _terminate run with numerics stubbed; the explorer forks on the code's "
